@@ -548,6 +548,22 @@ func checkTax(c V1Case) error {
 	if got := toBig(v1cs.FileContractTax(fc)); got.Cmp(refTax(payout)) != 0 {
 		return failf("v1/tax-enum/consensus-tax", "FileContractTax(%v) = %v, reference %v", payout, got, refTax(payout))
 	}
+	// the rhp3 renewal has its own copy of the inversion: the same target through PrepareContractRenewal of an empty
+	// contract under an all-zero price table (host payouts are then zero and the target is the renter payout)
+	if hcoll.Sign() == 0 && cp.Sign() == 0 {
+		rev := types.FileContractRevision{FileContract: types.FileContract{WindowStart: 5, WindowEnd: 10}}
+		nfc, _, err := rhp3.PrepareContractRenewal(rev, types.Address{1}, types.Address{2}, fromBig(rp), types.ZeroCurrency, rhp3.HostPriceTable{WindowSize: c.WindowSize}, 0, 20)
+		if err != nil {
+			return failf("v1/tax-enum/rhp3", "rhp3.PrepareContractRenewal of an empty contract with zero prices failed: %v", err)
+		}
+		p3, v3 := toBig(nfc.Payout), outSum(nfc.ValidProofOutputs)
+		if v3.Cmp(rp) != 0 || outSum(nfc.MissedProofOutputs).Cmp(rp) != 0 {
+			return failf("v1/tax-enum/rhp3", "rhp3 renewal of target %v: sum(valid) %v sum(missed) %v", rp, v3, outSum(nfc.MissedProofOutputs))
+		}
+		if p3.Cmp(sum(v3, refTax(p3))) != 0 {
+			return failf("v1/tax-enum/rhp3-tax", "rhp3 renewal, target %v: payout %v != target + tax(payout) %v", v3, p3, refTax(p3))
+		}
+	}
 	// non-trivial: the tax of the naive guess target*1000/961 differs from the tax of the result,
 	// i.e. the remainder correction mattered
 	guess := new(big.Int).Quo(new(big.Int).Mul(valid, big.NewInt(1000)), big.NewInt(961))
